@@ -23,6 +23,9 @@ META["technique"] += "; node store of the pointer-based manager (package ARCSLAB
 META["level_text"] += " Node store of the pointer-based manager (package ARCSLAB, C05_arcslab_*, 26 theorems; model coq/Tbl/ArcSlab.v mirrors crates/arcslab/src/lib.rs: Page::new, PageList::get_slot (eager page allocation), add_item, free_slot (LIFO push), Slot::retain / release / release_move, force_into_inner, ArcSlab::retain / release, Clone / Drop / into_inner / drop_with of IntHandle and ExtHandle, ExtHandle::from): in every state reachable by ANY script no operation meets an inconsistent structure (never_broken); the slots of all pages are partitioned into items, recycled free slots and never-used free slots, the free list is exactly recycled ++ never-used without repetition and num_items is the number of items (partition); add_item returns the head of the free list, a free slot to which no handle refers, and changes nothing else (add_fresh); an item's count is the number of handle variables that refer to it, never 0, every handle refers to a live item (rc_exact, no_dangling, free_slot_no_handle); drop / drop_with / into_inner take the item out of its slot exactly when the handle is the last one (Some / Drop logged exactly then), the slot becomes the head of the free list, an ExtHandle releases the slab after the item and the slab dies (data dropped last) exactly when that was its only reference (end_spec); items added = items dropped or returned + items in slots, per operation and over whole scripts, nothing is in a slot and nothing was leaked once no handle is left (step_conservation, conservation, no_leak, destroyed_leak_free); the slab is alive iff ArcSlabRefs + raw references + ExtHandles > 0 (alive_iff_count); LIFO re-use and the complete address policy incl. the moment a page is added (lifo, policy_*). Tie: checks/arcslabcommon.py: all scripts of acceptable operations up to length 5 over 3 handles on pages of 1 and 3 slots, all scripts of length 3 over the full alphabet, random scripts up to 500 operations on pages of 1..63 slots run on the real crate and on the extracted model: slot addresses (page, index), returned items, counts, num_items, live page allocations, the drop log, the moment the slab's data is dropped and the rejected operations must agree; again on the debug build; thorough tier also under miri."
 META["level_note"] += " Node store of the pointer-based manager (package ARCSLAB): sequential model (atomics, memory orderings and the page-list mutex are not modelled), overflow guards and allocation failure are outside the model; unsafety of the pointer arithmetic is only exercised (miri, thorough tier), not proved."
 
+# package STOREREF (node store of the index-based manager = allocator x payloads / counts): coq/Mgr/IndexStore*.v, theorems C05_index_store_*
+META["level_text"] += " Node store of the index-based manager (package STOREREF, C05_index_store_*, 4 theorems; coq/Mgr/IndexStore.v = ALLOC's slot allocator x (payload, stored count) per node slot x the edge values that exist): in every state reachable from a new manager under any interleaving of add_node / clone_edge / drop_edge / removals (collector, try_remove_node) / allocator-internal actions of any threads (inside drop_edge's assumption) a slot has a payload iff the allocator counts it as a node, its stored count = edge values held by clients (table entry, thread-local edges, Functions) + child edges stored in nodes, never 0, nothing points to a slot without node, every child edge is held by a live node (index_store_counts, _counts_reachable, _step_inv); the refinement to the abstract store and the OutOfMemory theorems are under C20_index_*."
+META["level_note"] += " Package STOREREF: proof-only (not extracted); its allocator component is the replayed ALLOC model, payloads are opaque numbers + child edge variables."
 ALLOWED_AXIOMS = ()
 
 
